@@ -128,6 +128,10 @@ class Gen:
             for _ in range(rng.randint(1, 3)):
                 subs.append(self.missing() if rng.random() < 0.4 else self.spec(t, d)[0])
             o = {'default': 'cdef'} if rng.random() < 0.3 else {}
+            if rng.random() < 0.3:
+                # a skipped VALUE (not a failure): the branch was evaluated, then passed over
+                o['skip'] = 7
+                subs.insert(rng.randint(0, len(subs)), ['Val', 7])
             return ['Coalesce', subs, o], None
         if c == 'or':
             subs = [self.missing() if rng.random() < 0.4 else self.spec(t, d)[0] for _ in range(rng.randint(1, 3))]
@@ -216,7 +220,7 @@ def eval_plan(G, item, plan, stats):
         'root_target': fmtv(target),
         'path': [(fmtv(n.obj), fmtv(t), id(n)) for n, t in me.path],
         'branches': {nid: [(fmtv(c.obj), e.etype, e.marker) for c, e in fl] for nid, fl in me.branches.items()},
-        'etype': me.etype, 'marker': me.marker,
+        'etype': me.etype, 'marker': me.marker, 'inline_ok': dict(me.inline_ok),
     }
     # inner branch records (failed branches carry their own nested branch records: not required by the statement)
     try:
@@ -224,7 +228,7 @@ def eval_plan(G, item, plan, stats):
     except ValueError as ex:
         V('trace-structure', 'unparseable', 'a target-spec trace', [str(ex), msg[:300]])
         return viols, digest, None
-    problems = tw.embed(blocks, record, fmtv)
+    problems = tw.embed(blocks, record, fmtv) + tw.order_problems(blocks)
     shape = _shape(me)
     for p in problems:
         V('trace-embedding', f'{p[0]}/{shape}', {'path': [x[0][:60] for x in record['path']],
